@@ -126,6 +126,8 @@ PROPS['C08']['quick'] = ['core'] + _LIGHT
 PROPS['C08']['thorough'] = ['core'] + _LIGHT
 PROPS['C01']['thorough'] = ['core'] + _LIGHT
 PROPS['C02']['thorough'] = ['core'] + _LIGHT
+PROPS['C01']['quick'] = ['core'] + _LIGHT   # trace commit / decommit / DEEP-call wrappers of every layout on every change (seconds each)
+PROPS['C02']['quick'] = ['core'] + _LIGHT
 PROPS['C16'] = dict(quick=['core', 'autogen_recursive'], thorough=['core', 'autogen_recursive', 'autogen_dex', 'autogen_small', 'autogen_recursive_with_poseidon', 'autogen_starknet', 'autogen_starknet_with_keccak'],
     claim='For each layout covered, the UNCHANGED bodies of the autogenerated composition and DEEP evaluators type-check with the coefficient vector retyped to an abstract Coeff (usable only as one factor of a product with a field element) and the result retyped to a linear form, and the ghost contract proves every coefficient position 0..N-1 is used exactly once, in order, with no constant part; powers_array is proved to return alpha^i, and stark_commit to pass N_CONSTRAINTS resp. MASK_SIZE+DEGREE of them. Index obligations show the evaluators read exactly mask/oods positions within the checked lengths.',
     technique='typing + ghost-state contract (lo, hi, count, czero) on eval_composition_polynomial_inner / eval_oods_polynomial_inner extracted with two signature-level rewrites; functional postcondition on powers_array',
@@ -158,7 +160,7 @@ PROPS['C09']['quick'] = list(dict.fromkeys(PROPS['C09']['quick'] + ['core_blake2
 PROPS['C13']['quick'] = list(dict.fromkeys(PROPS['C13']['quick'] + ['core_keccak_160_lsb_stone6']))
 
 # C16: the eval_oods_polynomial wrappers of the six other layouts (argument order of the DEEP evaluator call)
-PROPS['C16']['quick'] = list(dict.fromkeys(PROPS['C16']['quick'] + _LIGHT))
+PROPS['C16']['quick'] = list(dict.fromkeys(PROPS['C16']['quick'] + ['autogen_dex', 'autogen_small', 'autogen_recursive_with_poseidon', 'autogen_starknet'] + _LIGHT))   # a change in any covered evaluator is seen by the quick check (about 2 min)
 PROPS['C16']['thorough'] = list(dict.fromkeys(PROPS['C16']['thorough'] + _LIGHT))
 
 # thorough tier: every hash / stone variant of the core unit for the properties whose code is cfg-dependent
